@@ -296,17 +296,209 @@ fn level2(ctx: &Ctx, report: &mut Report) -> (usize, usize) {
     (n, caps.len())
 }
 
+/// Level 3: growth at every size.  Level 1's designed keys collide in a table that starts with four slots;
+/// whatever the initial capacity is, the ladder walks the real table through every size up to its bound:
+/// after n filler keys (two filler families: consecutive hashes, scattered hashes) each of eight trigger
+/// keys - hashes that differ from a resident's in the bit that the next capacity adds, that land on the
+/// last slots, that share a home slot - is interned as the (n+1)-th key on a fresh copy, the whole table
+/// is checked against the reference and the invariants, and where the insertion made the table grow the
+/// key and the oldest and newest fillers are looked up once more in the grown table.
+fn level3(ctx: &Ctx, report: &mut Report) -> (usize, usize, usize, Vec<usize>) {
+    let thorough = ctx.thorough();
+    let n_max = if thorough { 3200 } else { 800 };
+    let families: Vec<(&str, Box<dyn Fn(usize) -> u64 + Sync>)> = vec![("consecutive", Box::new(|i| i as u64)), ("scattered", Box::new(|i| ((i as u64 + 1).wrapping_mul(0x9E37_79B1)) & 0xF_FFFF))];
+    let never = Some(proto::GcSpec { mode: "never".into(), only: vec![], quarantine: false });
+    let mut transitions = 0usize;
+    let mut growths: std::collections::BTreeSet<usize> = Default::default();
+    let mut max_cap = 0usize;
+    let mut steps = 0usize;
+    for (fam, hash_of) in &families {
+        let fillers: Vec<InternOp> = (0..n_max).map(|i| InternOp { k: "intern".into(), hash: hash_of(i), text: format!("{}{}", fam, i) }).collect();
+        let fillers_ref = &fillers;
+        let never_ref = &never;
+        let results = par_map(&ctx.runner_checked, ctx.workers, 0..=n_max, |runner, _i, n| {
+            runner.timeout = std::time::Duration::from_secs(120);
+            let prefix: Vec<InternOp> = fillers_ref[..n].to_vec();
+            let mut problems: Vec<(String, serde_json::Value)> = Vec::new();
+            let mut done = 0usize;
+            let mut grew: Vec<usize> = Vec::new();
+            // the capacity before the insertion
+            let absent = InternOp { k: "probe".into(), hash: u64::MAX, text: "never interned".into() };
+            let mut req = Request { op: "intern".into(), intern_prefix: prefix.clone(), intern_alts: vec![absent], gc: never_ref.clone(), ..Default::default() };
+            let before = match runner.call(&mut req) {
+                Obs::Resp(r) if r.intern.len() == 1 => r.intern.into_iter().next().unwrap(),
+                other => {
+                    problems.push((format!("ladder of {} keys ends in {}", n, other.describe()), json!({"family": "level3_growth_ladder", "fillers": n})));
+                    return (problems, done, grew, 0);
+                }
+            };
+            done += 1;
+            let cap = before.slots.len() as u64;
+            if before.id.is_some() || before.size != n {
+                problems.push((format!("after {} distinct keys the table reports size {} and finds a key never interned: {:?}", n, before.size, before.id), json!({"family": "level3_growth_ladder", "fillers": n})));
+            }
+            let trigger_hashes: Vec<u64> = vec![0, cap - 1, cap, cap + 1, 2 * cap - 1, 2 * cap + cap - 2, cap / 2, cap + cap / 2];
+            let alts: Vec<InternOp> = trigger_hashes.iter().map(|h| InternOp { k: "intern".into(), hash: *h, text: format!("trigger{}", h) }).collect();
+            let mut req = Request { op: "intern".into(), intern_prefix: prefix.clone(), intern_alts: alts.clone(), gc: never_ref.clone(), ..Default::default() };
+            let obs = match runner.call(&mut req) {
+                Obs::Resp(r) if r.intern.len() == alts.len() => r.intern,
+                other => {
+                    problems.push((format!("ladder of {} keys + one ends in {}", n, other.describe()), json!({"family": "level3_growth_ladder", "fillers": n})));
+                    return (problems, done, grew, cap as usize);
+                }
+            };
+            for (alt, o) in alts.iter().zip(obs.into_iter()) {
+                done += 1;
+                let mut problem: Option<String> = None;
+                if o.id != Some(n) || !o.was_new {
+                    problem = Some(format!("interning ({}, {:?}) as key number {} returned object {:?}, new={}", alt.hash, alt.text, n + 1, o.id, o.was_new));
+                } else if let Some(inv) = invariants(&o) {
+                    problem = Some(inv);
+                } else {
+                    let mut present: Vec<(u64, String, usize)> = o.slots.iter().flatten().cloned().collect();
+                    present.sort_by_key(|e| e.2);
+                    let expected: Vec<(u64, String, usize)> = prefix.iter().chain(std::iter::once(alt)).enumerate().map(|(i, op)| (op.hash, op.text.clone(), i)).collect();
+                    if present != expected {
+                        let first = present.iter().zip(expected.iter()).position(|(a, b)| a != b).unwrap_or(present.len().min(expected.len()));
+                        problem = Some(format!("after {} fillers and ({}, {:?}) the table holds {} entries, the reference {}; first difference at entry {}: {:?} vs {:?}", n, alt.hash, alt.text, present.len(), expected.len(), first, present.get(first), expected.get(first)));
+                    }
+                }
+                if problem.is_none() && o.slots.len() as u64 > cap {
+                    grew.push(o.slots.len());
+                    // look everything up again in the grown table
+                    let mut again = vec![InternOp { k: "probe".into(), ..alt.clone() }, alt.clone()];
+                    if n > 0 {
+                        again.push(InternOp { k: "probe".into(), ..prefix[0].clone() });
+                        again.push(prefix[n - 1].clone());
+                        again.push(InternOp { k: "probe".into(), ..prefix[n / 2].clone() });
+                    }
+                    let want: Vec<usize> = if n > 0 { vec![n, n, 0, n - 1, n / 2] } else { vec![n, n] };
+                    let mut p2 = prefix.clone();
+                    p2.push(alt.clone());
+                    let mut req = Request { op: "intern".into(), intern_prefix: p2, intern_alts: again.clone(), gc: never_ref.clone(), ..Default::default() };
+                    match runner.call(&mut req) {
+                        Obs::Resp(r) if r.intern.len() == again.len() => {
+                            for ((op, w), o2) in again.iter().zip(want.iter()).zip(r.intern.iter()) {
+                                done += 1;
+                                if o2.id != Some(*w) || o2.was_new {
+                                    problem = Some(format!("after the table grew from {} to {} slots on interning ({}, {:?}), {} ({}, {:?}) returned object {:?} (new={}), it is object #{}", cap, o.slots.len(), alt.hash, alt.text, op.k, op.hash, op.text, o2.id, o2.was_new, w));
+                                    break;
+                                }
+                                if let Some(inv) = invariants(o2) {
+                                    problem = Some(inv);
+                                    break;
+                                }
+                            }
+                        }
+                        other => problem = Some(format!("lookups after growth end in {}", other.describe())),
+                    }
+                }
+                if let Some(p) = problem {
+                    problems.push((format!("[growth ladder] {}", p), json!({"family": "level3_growth_ladder", "filler_family": fillers_ref[0].text.trim_end_matches('0'), "fillers": n, "trigger": alt, "problem": p})));
+                }
+            }
+            (problems, done, grew, cap as usize)
+        });
+        for (problems, done, grew, cap) in results {
+            steps += 1;
+            transitions += done;
+            max_cap = max_cap.max(cap);
+            growths.extend(grew);
+            for pr in problems {
+                if report.violations.len() < 200 {
+                    report.violations.push(pr);
+                }
+            }
+        }
+    }
+    let _ = steps;
+    // vacuity guard: the ladder has to cross several growths whatever the initial capacity is
+    if report.violations.is_empty() && growths.len() < 2 {
+        crate::pool::machinery_failure(&format!("C11 level 3 saw the table grow to {:?} only", growths));
+    }
+    (transitions, n_max, max_cap, growths.into_iter().collect())
+}
+
+/// Level 4: the same ladder through the language and the interpreter's own table with real hashes: n
+/// strings are produced twice by different producers, compared and used as map keys at once and again at
+/// the end; n global names are declared and read.
+fn level4(ctx: &Ctx, report: &mut Report) -> usize {
+    let thorough = ctx.thorough();
+    let mut programs: Vec<(String, Vec<String>, Option<proto::GcSpec>)> = Vec::new();
+    let ladder = |n: usize, prefix: &str| -> (String, Vec<String>) {
+        let src = format!(
+            "var keep = [];\nvar m = {{}};\nvar unequal = 0;\nvar lost = 0;\nfor i in 0..{n} {{\n  var a = \"{p}\" + String.from(i);\n  var b = \"{p}${{i}}\";\n  if a != b {{ unequal += 1; }}\n  m.insert(a, i);\n  if m.get(b) != i {{ lost += 1; }}\n  keep.push(a);\n}}\nprint(unequal);\nprint(lost);\nvar bad = 0;\nfor i in 0..{n} {{\n  if keep[i] != \"{p}${{i}}\" {{ bad += 1; }}\n  if m.get(\"{p}\" + String.from(i)) != i {{ bad += 1; }}\n}}\nprint(bad);\nprint(m.len());\n",
+            n = n,
+            p = prefix
+        );
+        (src, vec!["0".into(), "0".into(), "0".into(), n.to_string()])
+    };
+    let never = Some(proto::GcSpec { mode: "never".into(), only: vec![], quarantine: false });
+    for (k, prefix) in ["id", "k_", "a much longer prefix for the same purpose ", "\u{e9}"].iter().enumerate() {
+        let (s1, e1) = ladder(if thorough { 900 } else { 450 } + k, prefix);
+        programs.push((s1, e1, None));
+        let (s2, e2) = ladder(if thorough { 14000 } else { 3500 } + k, prefix);
+        programs.push((s2, e2, never.clone()));
+    }
+    // global names: declared, then read, in one program; and declared in one snippet, read in the next
+    for g in [100usize, 200, 400, 800, if thorough { 3200 } else { 1600 }] {
+        let mut src = String::new();
+        for i in 0..g {
+            src.push_str(&format!("var g{} = {};\n", i, i));
+        }
+        src.push_str("var sum = 0;\n");
+        for i in 0..g {
+            src.push_str(&format!("sum += g{};\n", i));
+        }
+        src.push_str("print(sum);\n");
+        programs.push((src, vec![(g * (g - 1) / 2).to_string()], never.clone()));
+    }
+    let n = programs.len();
+    let results = par_map(&ctx.runner_checked, ctx.workers, programs.into_iter(), |runner, _i, (src, expected, gc)| {
+        runner.timeout = std::time::Duration::from_secs(300);
+        let mut req = Request { op: "run".into(), snippets: vec![src.clone()], fuel: Some(400_000_000), gc, want: vec!["store".into()], ..Default::default() };
+        let obs = runner.call(&mut req);
+        let r = obs.resp().and_then(|r| r.results.get(0).cloned());
+        let cap = obs.resp().and_then(|r| r.store).map(|s| s.1).unwrap_or(0);
+        let problem = match r {
+            Some(r) if matches!(r.outcome, proto::Outcome::Ok) && r.out == expected => None,
+            Some(r) => Some(format!("printed {:?} and ended with {:?}, expected {:?}", r.out.iter().take(6).collect::<Vec<_>>(), r.outcome, expected)),
+            None => Some(obs.describe()),
+        };
+        (src, problem, cap)
+    });
+    let mut caps: BTreeMap<usize, usize> = BTreeMap::new();
+    for (src, problem, cap) in results {
+        *caps.entry(cap).or_insert(0) += 1;
+        if let Some(p) = problem {
+            let head: String = src.chars().take(600).collect();
+            report.violations.push((format!("[string ladder through the language] {}\n{}", p, head), json!({"family": "level4_language_ladder", "source": src, "problem": p})));
+        }
+    }
+    report.cov("level4_interpreter_table_capacities_seen", json!(caps));
+    n
+}
+
 pub fn run(ctx: &Ctx) -> Report {
     let mut report = Report::new();
     let (states, transitions, max_cap, max_chain, samples) = level1(ctx, &mut report);
     let (n2, ncaps) = level2(ctx, &mut report);
+    let (t3, n3, cap3, growths3) = level3(ctx, &mut report);
+    let n4 = level4(ctx, &mut report);
+    let transitions = transitions + t3;
+    let n2 = n2 + n4;
+    report.cov("level3_ladder_length", json!(n3));
+    report.cov("level3_lookups_and_insertions_checked", json!(t3));
+    report.cov("level3_capacities_grown_to", json!(growths3));
+    report.cov("level3_max_capacity_before_insertion", json!(cap3));
+    report.cov("level4_programs", json!(n4));
     report.cov("states", json!(states));
     report.cov("transitions", json!(transitions));
     report.cov("traces_validated_against_impl", json!(transitions + n2));
     report.cov("evaluations", json!(transitions + n2));
     report.cov("distinct_nontrivial", json!(states + n2));
     report.cov("exhaustive", json!(true));
-    report.cov("rule", json!("level 1: breadth-first search over every sequence of intern/probe operations on keys with designed hashes (collisions in the low 2/3/4 bits, an identical-full-hash pair, the empty string, fillers) up to the depth bound; a state is the real table's slot array; every transition is executed on the real table (fresh table, history replayed) and compared with a reference map; invariants checked in every state. level 2: every (sampled in quick: half of the) ordered pair of producers of each target string with k fresh strings created before and between, k over the filler set: equality, map selection, tuple-key selection, inequality of one-byte-different strings; a global defined under a host-created name."));
+    report.cov("rule", json!("level 1: breadth-first search over every sequence of intern/probe operations on keys with designed hashes (collisions in the low 2/3/4 bits, an identical-full-hash pair, the empty string, fillers) up to the depth bound; a state is the real table's slot array; every transition is executed on the real table (fresh table, history replayed) and compared with a reference map; invariants checked in every state. level 2: every (sampled in quick: half of the) ordered pair of producers of each target string with k fresh strings created before and between, k over the filler set: equality, map selection, tuple-key selection, inequality of one-byte-different strings; a global defined under a host-created name. level 3: growth at every size - after n = 0..N filler keys of two families each of eight trigger keys (hashes chosen against the table's current capacity) is interned on a fresh copy of the real table, the whole slot array is compared with the reference and the invariants, and after an insertion that grew the table the key, the first, the middle and the last filler are looked up again. level 4: ladders of n strings produced twice by different producers through the language (compared and used as map keys at once and again at the end), collecting at every allocation for the short ones, and programs declaring and reading up to 1600/3200 global names."));
     report.cov("bounds", json!({"level1_depth": if ctx.thorough() { 10 } else { 8 }, "level1_keys": pool(ctx.thorough()).len(), "level2_programs": n2}));
     report.cov("level1_max_capacity_reached", json!(max_cap));
     report.cov("level1_longest_probe_displacement", json!(max_chain));
